@@ -412,3 +412,9 @@ _RULE_ADDENDA = {
 }
 for _p, _t in _RULE_ADDENDA.items():
     PROPS[_p]["rule"] = PROPS[_p]["rule"] + _t
+
+# ---- shared static obligations (no package-level state, no unmodelled hidden option state): built and audited with every
+#      check whose property says "depends only on the inputs of the call"
+for _p in ("C01", "C02", "C03", "C04", "C05", "C06", "C07", "C08", "C09", "C10", "C11", "C12", "C13", "C14", "C15", "C17", "C18", "C20"):
+    PROPS[_p]["tie_modules"] = list(PROPS[_p].get("tie_modules", [])) + ["TdxProofs.Props.Shared"]
+    PROPS[_p]["tie_theorems"] = list(PROPS[_p].get("tie_theorems", [])) + ["Tdx.Props.Shared.no_package_state_written", "Tdx.Props.Shared.hidden_option_state_is_modelled"]
